@@ -67,7 +67,7 @@ impl Reg {
         let q_mask = 1_usize.wrapping_shl(q_num as u32).wrapping_sub(1_usize);
 
         Self {
-            value: state,
+            value: state & q_mask,
             q_num,
             q_mask,
         }
